@@ -498,7 +498,7 @@ def oracle_guards(cfg):
 
 
 def search(ctx):
-    nconf = ctx.budget(6, 20)
+    nconf = ctx.budget(6, 30)
     with tempfile.TemporaryDirectory(prefix='c09s_') as tmpdir:
         # inputs a broken correspondence pointed at: replay them on the real code (final comparison)
         for b in ctx.broken:
@@ -523,7 +523,7 @@ def search(ctx):
                 ctx.fail(f_sig, f_what, dict(kind='guards', cfg=cfg))
             ctx.count('oracle_guard_runs')
             ks = sorted({ctx.rng.randint(1, nplan - 1), ctx.rng.randint(1, min(nplan - 1, 2 * nf)), ctx.rng.randint(0, nplan)})
-            if ctx.thorough and nplan <= 150:
+            if ctx.thorough and nplan <= 300:
                 ks = list(range(0, nplan + 1, max(1, nplan // 40)))
             for k in ks:
                 mode = ctx.rng.choice(MODES[1:]) if not ctx.thorough else MODES[1 + (k % 3)]
